@@ -25,6 +25,12 @@ void sk_peer_close(int idx);
 size_t sk_take_tx(int idx, unsigned char** p);
 size_t sk_take_peer(int idx, unsigned char** p);
 const char* sk_take_sendlog(void);
+// ordered event trace for the property monitor: the kernel adds one token per send call on a client descriptor
+//   S<idx>:<requested>:<returned>:<t|w|f>[u]   t = took <returned> bytes, w = would-block, f = failed / returned 0,
+//                                             u = the script had no answer left for this call (answered would-block)
+// the harness adds its own tokens (callbacks, reactions, ...) with sk_trace_add; tokens are joined with ','
+void sk_trace_add(const char* token);
+const char* sk_take_trace(void);                          // valid until the next call of sk_trace_add / sk_take_trace
 int sk_registered(int idx);
 unsigned sk_reg_mask(int idx);
 #ifdef __cplusplus
